@@ -186,8 +186,9 @@ class _Elim(object):
             k2 = self.seq(rest, k)
             bf, of = _falls(s.body), _falls(s.orelse)
             self._dup_ok(k2, int(bf) + int(of))
+            # (a continuation that goes to both arms is copied: one statement object must not sit at two places of the tree)
             new = ast.If(test=s.test, body=_nonempty(self.seq(s.body, k2 if bf else []), s),
-                         orelse=self.seq(s.orelse, k2 if of else []))
+                         orelse=self.seq(s.orelse, (copy.deepcopy(k2) if bf else k2) if of else []))
             return [ast.copy_location(new, s)]
         if isinstance(s, ast.Try):
             if _contains_return(s.finalbody):
@@ -208,7 +209,7 @@ class _Elim(object):
             self._dup_ok(k2, int(b_falls) + sum(1 for f in hf if f))
             new_body = self.seq(s.body, [])
             new_orelse = self.seq(s.orelse, k2 if b_falls else [])
-            new_handlers = [ast.copy_location(ast.ExceptHandler(type=h.type, name=h.name, body=_nonempty(self.seq(h.body, k2 if f else []), h)), h)
+            new_handlers = [ast.copy_location(ast.ExceptHandler(type=h.type, name=h.name, body=_nonempty(self.seq(h.body, copy.deepcopy(k2) if f else []), h)), h)
                             for h, f in zip(s.handlers, hf)]
             new = ast.Try(body=_nonempty(new_body, s), handlers=new_handlers, orelse=new_orelse, finalbody=s.finalbody)
             return [ast.copy_location(new, s)]
@@ -340,8 +341,18 @@ def _eligible_def(fn):
     if not fn.name.startswith('_') or (fn.name.startswith('__') and fn.name.endswith('__')):
         return None
     a = fn.args
-    if a.vararg or a.kwarg:
+    if a.vararg:
         return None
+    if a.kwarg is not None:
+        # ``**kw`` is acceptable when the helper only passes it on (``g(.., **kw)``): the caller's mapping can then stand
+        # for the copy the call would make -- nothing in the helper can tell the difference
+        kw = a.kwarg.arg
+        passed = set(id(k.value) for n in ast.walk(fn) if isinstance(n, ast.Call) for k in n.keywords if k.arg is None and isinstance(k.value, ast.Name))
+        for n in ast.walk(fn):
+            if isinstance(n, ast.Name) and n.id == kw and id(n) not in passed:
+                return None
+            if isinstance(n, ast.arg) and n.arg == kw and n is not a.kwarg:
+                return None
     kind = 'func'
     for d in fn.decorator_list:
         if isinstance(d, ast.Name) and d.id == 'staticmethod':
@@ -469,8 +480,20 @@ class Inliner(object):
     # -- which helper does this call name? ------------------------------------------------------------
     def _helper_of(self, call, cls_name):
         f = call.func
-        if any(isinstance(a, ast.Starred) for a in call.args) or any(k.arg is None for k in call.keywords):
+        if any(isinstance(a, ast.Starred) for a in call.args):
             return None, None
+        stars = [k for k in call.keywords if k.arg is None]
+        if stars:
+            # f(a, **kw) is followed only into a helper that itself declares ``**kw`` as a pure pass-through (see
+            # _eligible_def) and when the mapping is a plain name
+            h, recv = self._helper_of_plain(call, cls_name)
+            if h is None or h.node.args.kwarg is None or len(stars) != 1 or not isinstance(stars[0].value, ast.Name):
+                return None, None
+            return h, recv
+        return self._helper_of_plain(call, cls_name)
+
+    def _helper_of_plain(self, call, cls_name):
+        f = call.func
         if isinstance(f, ast.Name) and f.id in self.local_helpers:
             return self.local_helpers[f.id], None
         if isinstance(f, ast.Name) and f.id in self.mod_helpers and f.id not in self.shadowed:
@@ -509,10 +532,18 @@ class Inliner(object):
             raise CannotInline('too many positional arguments')
         for p, a in zip(pos, call.args):
             binding[p] = a
+        kwparam = fn.args.kwarg.arg if fn.args.kwarg is not None else None
         for k in call.keywords:
+            if k.arg is None:
+                if kwparam is None or kwparam in binding:
+                    raise CannotInline('** argument without a ** parameter')
+                binding[kwparam] = k.value
+                continue
             if k.arg in binding or k.arg not in params + kwonly:
                 raise CannotInline('bad keyword %s' % k.arg)
             binding[k.arg] = k.value
+        if kwparam is not None and kwparam not in binding:
+            binding[kwparam] = ast.Dict(keys=[], values=[])      # no extra keywords given: ``**{}``
         for p in params + kwonly:
             if p not in binding:
                 if p not in defaults:
@@ -550,6 +581,8 @@ class Inliner(object):
                 rename[n] = new
                 taken.add(new)
         mapping, pre = {}, []
+        if kwparam is not None:
+            mapping[kwparam] = binding[kwparam]      # only ever read as ``**kw``: the caller's mapping stands for it
         for p in params + kwonly:
             v = binding[p]
             if p in stored or p in comp_targets or not _simple_arg(v):
